@@ -420,6 +420,33 @@ func (r *c09Run) quiescenceInvariants() {
 	if lim := int64(r.k.Cfg.MaxKB) * 1024; total > lim {
 		c.Failf(r.tag()+"/size-limit-exceeded", "%d bytes stored at quiescence, limit %d", total, lim)
 	}
+	if c.Failed() {
+		return
+	}
+	// the accounting has not drifted: after everything is purged the whole capacity is usable
+	for _, n := range r.k.Names {
+		if err := r.store.PurgeMessages(n); err != nil {
+			c.Failf(r.tag()+"/purge->unexpected-error", "purging %q at quiescence: %v", n, err)
+			return
+		}
+	}
+	sz := 256
+	k := r.k.Cfg.MaxKB * 1024 / (sz + 64)
+	if r.k.Cfg.Cap > 0 && k > r.k.Cfg.Cap {
+		k = r.k.Cfg.Cap
+	}
+	for j := 0; j < k; j++ {
+		m := &models.Msg{Mailbox: "driftprobe", Subject: fmt.Sprintf("probe %d", j), Date: baseDate, From: people[0], Body: bytes.Repeat([]byte("p"), sz)}
+		if _, err := r.store.AddMessage(delivery(m)); err != nil {
+			c.Failf(r.tag()+"/add->unexpected-error", "drift probe: %v", err)
+			return
+		}
+	}
+	got, _ := r.store.GetMessages("driftprobe")
+	if len(got) != k {
+		c.Failf(r.tag()+"/capacity-drift", "after the concurrent history and a purge of every mailbox, %d fresh %d-byte messages fit the size limit (%d KiB) but only %d are retrievable", k, sz, r.k.Cfg.MaxKB, len(got))
+	}
+	c.Stat("probe.drift_probes", 1)
 }
 
 // ---- linearizability (outside the bubble) ----
